@@ -185,7 +185,17 @@ pub fn run(ctx: &Ctx) -> i32 {
         nb.push(1u64 << k);
         nb.push((1u64 << k) - 1);
     }
-    rep.sweep("Time::from_nanos: u64 boundaries", nb.len() as u64, "", |i, acc| case_ctor_nanos(nb[i as usize], acc));
+    for unit in [1u128, 1_000, 1_000_000, 1_000_000_000] {
+        for j in 1u128..=4 {
+            let base = (1u128 << 32) * j * unit;
+            for add in [0u128, 1, 86_399 * 1_000_000_000, ab::DAY_NS as u128 - 1] {
+                if base + add <= u64::MAX as u128 {
+                    nb.push((base + add) as u64);
+                }
+            }
+        }
+    }
+    rep.sweep("Time::from_nanos: u64 boundaries and wrap-back values", nb.len() as u64, "", |i, acc| case_ctor_nanos(nb[i as usize], acc));
     if ctx.thorough && checked {
         rep.sweep("Time::from_seconds: all 2^32", 1 << 32, "", |i, acc| case_ctor_seconds(i as u32, acc));
     } else {
